@@ -102,6 +102,8 @@ def run(ctx):
     pending = []     # (record, pattern, name) membership questions
     for group, reps in zip(groups, pmap(do, groups)):
         for (prof, chunk), rep in zip(group, reps):
+            if worker.timed_out(ctx, rep):
+                continue
             if "ok" not in rep:
                 for r in chunk:
                     ctx.case(None)
